@@ -55,6 +55,6 @@ def doReplaceWorkload (w : Wl R) : M R Nat := do
 /-- replace one workload; sends one message (ok / failed), returns nothing -/
 def replace (node : String) (id : Nat) : M R Unit := do
   let ok ← attempt (withWorkloadLocked node id (fun w => do let _ ← doReplaceWorkload w; pure ()))
-  emit ⟨node, id, ok⟩
+  emit ⟨node, id, ok, none⟩
 
 end Eru.Cluster
